@@ -245,7 +245,23 @@ of_linear_binary_code_finish_decoding_with_ml (of_linear_binary_code_cb_t	*ofcb)
 	{
 		if (ofcb->encoding_symbols_tab[i] == NULL)
 		{
-			ofcb->encoding_symbols_tab[i] = variable_member[nb_computed_repair_in_ml];
+			void	*decoded_symbol_dst = NULL;	/* buffer provided by the application, if any */
+
+			if (ofcb->decoded_source_symbol_callback != NULL)
+			{
+				decoded_symbol_dst = ofcb->decoded_source_symbol_callback (ofcb->context_4_callback,
+										ofcb->encoding_symbol_length, i);
+			}
+			if (decoded_symbol_dst != NULL && variable_member[nb_computed_repair_in_ml] != NULL)
+			{
+				memcpy (decoded_symbol_dst, variable_member[nb_computed_repair_in_ml], ofcb->encoding_symbol_length);
+				of_free (variable_member[nb_computed_repair_in_ml]);
+				ofcb->encoding_symbols_tab[i] = decoded_symbol_dst;
+			}
+			else
+			{
+				ofcb->encoding_symbols_tab[i] = variable_member[nb_computed_repair_in_ml];
+			}
 			nb_computed_repair_in_ml++;
 		}
 	}
